@@ -507,8 +507,8 @@ def run_task(prog, tid, params, tier):
                 small = z3.And([z3.ULE(r_.f[2].z(), 2) for r_ in I.recs.values()] +
                                [z3.ULE(I.clock[-1].z() - c_.z(), 3000000000) for c_ in I.clock])
                 if res.ctx.check(z3.BoolVal(n == 1) != expect):
-                    if res.ctx.check(z3.BoolVal(n == 1) != expect, small):     # prefer a model replayable with real sleeps
-                        res.ctx.add(small)
+                    if not res.ctx.check(z3.BoolVal(n == 1) != expect, small):     # prefer a model replayable with real sleeps
+                        res.ctx.check(z3.BoolVal(n == 1) != expect)
                     m = res.ctx.model()
                     want = []
                     for f2, a2, g2, tq2 in res.value:
